@@ -398,11 +398,18 @@ def evaluate_arithmetic(op, lval, rval):
         return error.DIV_ZERO
 
 
-def evaluate_concat(lval, rval):
+def concat_text(value):
     # a blank operand joins as nothing, not as the text 'None'
-    ltext = '' if lval is None else str(lval)
-    rtext = '' if rval is None else str(rval)
-    return ltext + rtext
+    if value is None:
+        return ''
+    # whole numbers join as their digits even when held as floats (2.5*2 is 5, not 5.0)
+    if isinstance(value, float) and value.is_integer():
+        return str(int(value))
+    return str(value)
+
+
+def evaluate_concat(lval, rval):
+    return concat_text(lval) + concat_text(rval)
 
 
 def evaluate_logic(op, lval, rval):
